@@ -222,13 +222,35 @@ def run_history(case, rec, lib, scratch, rng, fresh=None):
             client = l.value
         mv, failed = models.root_verdict(model, offer_m)
         before = boundary.fingerprint(client)
-        out = boundary.call(lib, A.verify_root, client, offer_c)
+        if st["persist"] and i % 2 == 1 and getattr(lib, "cli", None) is not None:
+            # a client that keeps its roots in files and asks the command-line tool: exit status 0 <=> replace the trusted root
+            fn_t, fn_u = os.path.join(scratch, "cli.trusted.json"), os.path.join(scratch, "cli.offer.json")
+            from ..refs import canonjson as _cj
+            import json as _json
+
+            try:
+                with open(fn_t, "wb") as fh:
+                    fh.write(_cj.canon(client))
+                with open(fn_u, "wb") as fh:
+                    fh.write(_json.dumps(offer_c).encode("utf-8"))
+                usable = isinstance(offer_c, dict) and isinstance(offer_c.get("signed"), dict) and offer_c["signed"].get("type") == "root"
+            except Exception:
+                usable = False
+            if usable:
+                rec.count("verdicts_through_cli")
+                out = boundary.call(lib, lib.cli.cli, ["verify-metadata", fn_t, fn_u])
+                if out.accepted and out.value != 0:
+                    out.kind, out.cls, out.family = "raise", "exit-%r" % (out.value,), "CLI-nonzero"
+            else:
+                out = boundary.call(lib, A.verify_root, client, offer_c)
+        else:
+            out = boundary.call(lib, A.verify_root, client, offer_c)
         rec.count("offers")
         rec.hist("offer_class", st["class"])
         if boundary.fingerprint(client) != before:
             rec.violation("purity/verify_root/trusted-root-mutated", "verify_root modified the trusted root", case)
         log.append({"trusted": copy.deepcopy(client), "offer": copy.deepcopy(st["offer"]), "accepted": out.accepted,
-                    "cls": out.cls, "class": st["class"]})
+                    "cls": None if (out.cls or "").startswith("exit-") else out.cls, "class": st["class"]})
         if mv.v == models.GREY:
             rec.count("grey_steps")
             return  # statements silent: stop the history here
@@ -269,7 +291,7 @@ def run_history(case, rec, lib, scratch, rng, fresh=None):
             e = log[j]
             o2 = boundary.call(fresh, fresh.authentication.verify_root, copy.deepcopy(e["trusted"]), copy.deepcopy(e["offer"]))
             rec.count("independence_reevaluations")
-            if o2.accepted != e["accepted"] or o2.cls != e["cls"]:
+            if o2.accepted != e["accepted"] or (e["cls"] is not None and o2.cls != e["cls"]):
                 rec.violation("history-dependence/verify_root/verdict-differs-in-fresh-instance",
                               "step %d (%s): in history %s, alone in fresh instance %s"
                               % (j, e["class"], "accept" if e["accepted"] else e["cls"], o2.brief()), case)
@@ -277,7 +299,7 @@ def run_history(case, rec, lib, scratch, rng, fresh=None):
         # and again in the SAME instance, reversed order (state carried forward would show)
         for e in reversed(log):
             o3 = boundary.call(lib, A.verify_root, copy.deepcopy(e["trusted"]), copy.deepcopy(e["offer"]))
-            if o3.accepted != e["accepted"] or o3.cls != e["cls"]:
+            if o3.accepted != e["accepted"] or (e["cls"] is not None and o3.cls != e["cls"]):
                 rec.violation("history-dependence/verify_root/verdict-differs-when-repeated",
                               "(%s): first %s, repeated later %s" % (e["class"], "accept" if e["accepted"] else e["cls"], o3.brief()), case)
                 break
